@@ -289,6 +289,8 @@ def check_C06(ctx, rep):
 
 
 def check_C07(ctx, rep):
+    small_models2.check_chomsky_phases(ctx, rep, [ctx.prog.func('cfg_algorithms.' + n0) for n0 in small_models2._PHASES])
+    rep.clauses_decided.append('the five phases of the Chomsky conversion, applied in order to eight model grammars (epsilon rules, nullable chains, unit cycles, long right-hand sides, terminals inside them) under two iteration orders of sets, each keep the words up to length 3 and the declared variables, and the final grammar is in Chomsky normal form (M28, finite model)')
     small_models2.check_cyk(ctx, rep, ctx.prog.func('cfg_algorithms.cfg_cyk_matrix'), ctx.prog.func('cfg_algorithms.cfg_accepts_word'))
     rep.clauses_decided.append('on five model grammars in Chomsky normal form and all words up to length 4 (3) every CYK cell holds exactly the variables that derive the subword and the membership test agrees with derivability (M23, finite model)')
     small_models2.check_unit_elimination(ctx, rep, ctx.prog.func('cfg_algorithms.cfg_eliminate_unit_rules_in_place'))
@@ -349,6 +351,8 @@ def _conversion_kernel(ctx, rep):
 
 
 def check_C08(ctx, rep):
+    small_models2.check_chomsky_phases(ctx, rep, [ctx.prog.func('cfg_algorithms.' + n0) for n0 in small_models2._PHASES])
+    rep.clauses_decided.append('the five phases of the Chomsky conversion, applied in order to eight model grammars (epsilon rules, nullable chains, unit cycles, long right-hand sides, terminals inside them) under two iteration orders of sets, each keep the words up to length 3 and the declared variables, and the final grammar is in Chomsky normal form (M28, finite model)')
     small_models2.check_unit_elimination(ctx, rep, ctx.prog.func('cfg_algorithms.cfg_eliminate_unit_rules_in_place'))
     rep.clauses_decided.append('cfg_eliminate_unit_rules_in_place, on six model grammars (unit cycles with an exit, a start variable that only reaches unit rules, a self-loop) under two iteration orders of the variable set, leaves no unit rule and keeps the words up to length 3 (M16, finite model)')
     small_models2.check_nullable(ctx, rep, ctx.prog.func('cfg_algorithms.cfg_nullable_variables'))
